@@ -313,7 +313,28 @@ func registerBigModels(ex *Exec) {
 		}
 		return bigWithMax(ex.Ctx.Add(x.T, y.T), new(big.Int).Add(x.max(), y.max())), nil
 	})
-	m["(*math/big.Int).Sub"] = bin(func(ex *Exec, x, y *BigV) (*BigV, error) {
+	var subGeneric ModelFn
+	m["(*math/big.Int).Sub"] = func(ex *Exec, s *State, cc *ssa.CallCommon, a []Value) (Value, *Fork, error) {
+		// unsigned bit-vector model: x - y is representable when the solver shows x >= y on this path
+		if !ex.bigIsInt() && ex.BigMode != "sbv" {
+			x, err := ex.bigGet(s, a[1])
+			if err != nil {
+				return nil, nil, err
+			}
+			y, err := ex.bigGet(s, a[2])
+			if err != nil {
+				return nil, nil, err
+			}
+			if !(x.T.IsConst() && y.T.IsConst()) {
+				if ex.checkSat(s, ex.Ctx.Cmp(OUlt, x.T, y.T)) == Unsat {
+					return ex.bigSet(s, a[0], bigWithMax(ex.Ctx.BVOp(OSub, x.T, y.T), x.max()))
+				}
+				return nil, nil, unsupported("big.Int.Sub of symbolic values in the bit-vector model (a negative difference is possible)")
+			}
+		}
+		return subGeneric(ex, s, cc, a)
+	}
+	subGeneric = bin(func(ex *Exec, x, y *BigV) (*BigV, error) {
 		if ex.bigIsInt() {
 			return &BigV{T: ex.Ctx.IntOp(OISub, x.T, y.T)}, nil
 		}
